@@ -11,7 +11,7 @@ PROFILE = profile(scope=22, cancel=16, shield=8, catch=12, group=8, spawn=8, wai
 RULE = ('Hypothesis-generated scope trees with arbitrary shield flags (toggled while active by the host), all orders of cancel() calls, exception groups mixing AnyIO cancellations with Boom reaching scope exits, native task.cancel() of children; non-trivial = an inner scope left with a cancellation in flight while it or an enclosing scope is cancelled/shielded; distinct = distinct canonical JSON')
 ASSUMPTIONS = ["reference semantics (mirror) evaluated on public attributes cancel_called/shield of every scope on the chain; the only private access is fetching a child's handle scope object at its first step", 'every indefinite wait sits in a harness guard scope cancelled after 40 cycles', "asyncio's FIFO ready queue is not permuted; schedules vary through generated delays, cancel placement, external loop callbacks and loop configuration"]
 TECHNIQUE = 'Hypothesis-generated programs compared with an independent reference semantics (effective cancellation / absorb rule) evaluated on the observable history'
-LEVEL_TEXT = ('Reference semantics written from docs/cancellation.rst: every AnyIO cancellation raised in a task must coincide (within 2 cycles) with its current scope being effectively cancelled; at every scope exit what leaves equals what the absorb rule predicts from what arrived (also inside exception groups); cancelled_caught true exactly for absorbing scopes; other exceptions always pass. Exploration.')
+LEVEL_TEXT = ('Reference semantics written from docs/cancellation.rst: every AnyIO cancellation raised in a task must coincide (within 2 cycles) with its current scope being effectively cancelled; at every scope exit what leaves equals what the absorb rule predicts from what arrived (also inside exception groups); cancelled_caught true exactly for absorbing scopes; other exceptions always pass, including native CancelledErrors: a task cancelled with Task.cancel() outside any cancellation handler (and not merged by asyncio into a cancellation already under way) must not complete normally. Exploration.')
 LEVEL_NOTE = 'Trusted: the Mirror reference (vf/interp.py) over public cancel_called/shield; prediction made right before __exit__.'
 DESIGN_REF = "3/C04"
 
